@@ -36,7 +36,17 @@ func newStats() *stats { return &stats{Dist: map[string]int{}, Extra: map[string
 
 func (s *stats) count(k string) { s.Dist[k]++ }
 
-const shardSize = 100
+// shards are evaluated by 14 coqc processes in parallel: one round of equal shards
+func shardSizeFor(n int) int {
+	sz := (n + 13) / 14
+	if sz < 20 {
+		sz = 20
+	}
+	if sz > 160 {
+		sz = (n + 27) / 28
+	}
+	return sz
+}
 
 type coqCase struct {
 	id   int
@@ -46,11 +56,9 @@ type coqCase struct {
 
 // writeShards writes Coq case files. imports: module list; admits/spec: function names.
 func writeShards(dir, prop string, imports string, scenTy, obsTy, admits, spec string, cases, controls []coqCase) (int, error) {
-	mobsFn := "engine_mobs"
-	if scenTy != "escen" {
-		mobsFn = scenTy + "_mobs"
-	}
+
 	nsh := 0
+	shardSize := shardSizeFor(len(cases))
 	for start := 0; start < len(cases) || (start == 0 && nsh == 0); start += shardSize {
 		end := start + shardSize
 		if end > len(cases) {
@@ -66,7 +74,11 @@ func writeShards(dir, prop string, imports string, scenTy, obsTy, admits, spec s
 			fmt.Fprintf(&sb, "  (%d,\n   %s,\n   %s)", c.id, c.scen, c.obs)
 		}
 		sb.WriteString("\n].\n")
-		fmt.Fprintf(&sb, "Definition bad := Eval vm_compute in failing4 %s %s %s cases.\nPrint bad.\n", admits, spec, mobsFn)
+		if scenTy == "escen" {
+			fmt.Fprintf(&sb, "Definition bad := Eval vm_compute in engine_failing %s cases.\nPrint bad.\n", spec)
+		} else {
+			fmt.Fprintf(&sb, "Definition bad := Eval vm_compute in %s_failing %s cases.\nPrint bad.\n", scenTy, spec)
+		}
 		if nsh == 0 {
 			fmt.Fprintf(&sb, "Definition controls : list (nat * %s * %s) := [\n", scenTy, obsTy)
 			for i, c := range controls {
